@@ -462,8 +462,12 @@ func (w *worker[T, JobType]) stopAndRemoveAllWorkers() {
 }
 
 func (w *worker[T, JobType]) start() error {
-	if w.IsRunning() {
+	switch w.status.Load() {
+	case running:
 		return ErrRunningWorker
+	case paused, stopped:
+		// binding another queue must not change the state of a paused or stopped worker
+		return ErrNotRunningWorker
 	}
 
 	defer w.notifyToPullNextJobs()
